@@ -326,6 +326,8 @@ class Rd:
             k = self.read_arg(v, env)
             if k is None:
                 return pad + "some (%s, [])" % r
+            if not k.isdigit():
+                return pad + "Mimic.Py.readN %s %s" % (k, r)        # computed size: OverflowError past 2^63-1
             return pad + "some (Mimic.Py.read %s %s)" % (k, r)
         if self.is_reader_call(v):
             call, t = self.reader_call(v, env, r)
